@@ -1,48 +1,61 @@
 -------------------------- MODULE TraceCredentials --------------------------
 (* Trace validation of client auth writers -> real request -> server         *)
 (* authenticators against C14.                                               *)
-(* case  : a SESSION on one client.Runtime (reset line: the steps, for       *)
-(*         replay).  The events tell what the driver did, in order:          *)
-(*   configure {def, debug, bstatic}  the application (re)sets               *)
-(*         Runtime.DefaultAuthentication, Runtime.Debug and the base path    *)
-(*         (with its static query parameters)                                *)
-(*   request {op, authz, hdrs, query, form, media, pstatic, transport}       *)
-(*         a request is made with the configuration as it is now             *)
+(* case  : a SESSION on two client.Runtimes A (1) and B (2) (reset line: the *)
+(*         steps, for replay).  The events tell what the driver did:         *)
+(*   configure {rt, def, debug, bstatic}  the application (re)sets           *)
+(*         DefaultAuthentication, Debug and the base path (with its static   *)
+(*         query parameters) of Runtime rt                                   *)
+(*   request {rt, opref, op, authz, hdrs, query, form, media, pstatic,       *)
+(*         transport}  a request is made through Runtime rt, configured as   *)
+(*         it is now, with a fresh ClientOperation value (opref 0) or with   *)
+(*         the caller's value number opref, possibly submitted before        *)
+(*   returned {before, after, same}  the AuthInfo of the caller's operation  *)
+(*         value before and after the request was made ("nil" | "set"; same: *)
+(*         it is the very writer the caller put there)                       *)
 (*   auth {a: the authenticator run on that request, o: what its application *)
 (*         callback received and what it returned / marked, built: the       *)
 (*         client produced (and, for transport "server", delivered) the      *)
 (*         request}                                                          *)
-(* The model state is what a correct Runtime may remember - its              *)
-(* configuration - plus the request being judged: `configure` replaces the   *)
+(* The model state is what correct Runtimes may remember - their             *)
+(* configurations - plus the request being judged: `configure` replaces a    *)
 (* configuration, `request` the request; every `auth` must satisfy C14 for   *)
-(* the configuration in force when the request was made, whatever was        *)
-(* configured or requested before.                                           *)
+(* the configuration in force of the SENDING Runtime when the request was    *)
+(* made, whatever was configured, requested or submitted before, and every   *)
+(* `returned` must show the caller's operation value untouched.              *)
 EXTENDS Credentials, Json, IOUtils
 
 VARIABLES l, st, skipping, fails, cs
 
-CInit(e) == [def |-> <<>>, debug |-> FALSE, bstatic |-> <<>>,
+RtCfg0 == [def |-> <<>>, debug |-> FALSE, bstatic |-> <<>>]
+CInit(e) == [cfgs |-> <<RtCfg0, RtCfg0>>, rt |-> 1,
              op |-> <<>>, authz |-> <<>>, hdrs |-> <<>>, query |-> <<>>, form |-> <<>>, media |-> "none",
              pstatic |-> <<>>, transport |-> "direct", requested |-> FALSE]
 
 \* the case the property is stated on: the request with the configuration in force
-In(s) == [op |-> s.op, def |-> s.def, authz |-> s.authz, hdrs |-> s.hdrs, query |-> s.query, form |-> s.form, media |-> s.media,
-          static |-> s.bstatic \o s.pstatic, debug |-> s.debug, transport |-> s.transport]
+In(s) == LET c == s.cfgs[s.rt] IN
+         [op |-> s.op, def |-> c.def, authz |-> s.authz, hdrs |-> s.hdrs, query |-> s.query, form |-> s.form, media |-> s.media,
+          static |-> c.bstatic \o s.pstatic, debug |-> c.debug, transport |-> s.transport]
+
+\* Submit / CreateHttpRequest leave the caller's ClientOperation as it was
+OperationUnchanged(e) == e.after = e.before /\ e.same
 
 CAllowed(s, e) ==
-  CASE e.ev = "configure" -> TRUE
-    [] e.ev = "request"   -> TRUE
+  CASE e.ev = "configure" -> e.rt \in {1, 2}
+    [] e.ev = "request"   -> e.rt \in {1, 2}
+    [] e.ev = "returned"  -> OperationUnchanged(e)
     [] e.ev = "auth"      -> s.requested /\ e.built /\ ~e.o.panic /\ AuthOK(In(s), e.a, e.o)
     [] OTHER -> FALSE
 
 CWhy(s, e) ==
   CASE e.ev = "auth" -> IF ~s.requested THEN "auth-without-request" ELSE IF ~e.built THEN "request-not-built" ELSE IF e.o.panic THEN "panic"
                         ELSE WhyAuth(In(s), e.a, e.o)
+    [] e.ev = "returned" -> "caller-operation-changed"
     [] OTHER -> "unknown-event"
 
 CStep(s, e) ==
-  CASE e.ev = "configure" -> [s EXCEPT !.def = e.def, !.debug = e.debug, !.bstatic = e.bstatic, !.requested = FALSE]
-    [] e.ev = "request"   -> [s EXCEPT !.op = e.op, !.authz = e.authz, !.hdrs = e.hdrs, !.query = e.query, !.form = e.form,
+  CASE e.ev = "configure" -> [s EXCEPT !.cfgs[e.rt] = [def |-> e.def, debug |-> e.debug, bstatic |-> e.bstatic], !.requested = FALSE]
+    [] e.ev = "request"   -> [s EXCEPT !.rt = e.rt, !.op = e.op, !.authz = e.authz, !.hdrs = e.hdrs, !.query = e.query, !.form = e.form,
                                        !.media = e.media, !.pstatic = e.pstatic, !.transport = e.transport, !.requested = TRUE]
     [] OTHER -> s
 
